@@ -19,11 +19,18 @@ def _clauses(xs):
     return out
 
 
+def _mod_entry(m):
+    """modifies entry: "expr"  or  ("expr", "guard")  -> (expr ast, guard ast | None)"""
+    if isinstance(m, (tuple, list)):
+        return (ast.parse(m[0], mode="eval").body, ast.parse(m[1], mode="eval").body)
+    return (ast.parse(m, mode="eval").body, None)
+
+
 class LoopContract(object):
     def __init__(self, invariants=None, modifies=None, modifies_vars=None, variant=None, unroll=None,
                  havoc_heap=None):
         self.invariants = _clauses(invariants)
-        self.modifies = [ast.parse(m, mode="eval").body for m in (modifies or [])]   # heap refs the body may write
+        self.modifies = [_mod_entry(m) for m in (modifies or [])]   # heap refs the body may write
         self.modifies_vars = modifies_vars         # None = compute syntactically
         self.variant = variant
         self.unroll = unroll                       # int: unroll exactly that many iterations (complete only with an exhaustion obligation)
@@ -46,7 +53,7 @@ class Contract(object):
                            for k, v in self.raises.items()}
         self.xensures = {k: _clauses(v) for k, v in (xensures or {}).items()}   # class -> clauses on exceptional exit
         self.modifies = modifies          # None = nothing; "ALL"; or list of expression texts naming refs
-        self.modifies_ast = ([ast.parse(m, mode="eval").body for m in modifies]
+        self.modifies_ast = ([_mod_entry(m) for m in modifies]
                              if isinstance(modifies, (list, tuple)) else modifies)
         self.ghost = {k: ast.parse(v, mode="eval").body for k, v in (ghost or {}).items()}  # ghost var -> new value
         self.loops = loops or {}          # loop ordinal (int, in source order within the unit) -> LoopContract
